@@ -408,6 +408,13 @@ class Interp:
                         and not (INT_BOUNDS[ty][0] <= r <= INT_BOUNDS[ty][1]):
                     raise EvalPanic(f'`{a} {op} {b}` overflows {ty} (line {e.get("l")})')
                 return r
+        if k == 'letexpr':
+            v = self.val(e['init'], env)
+            env2 = dict(env)
+            if self.matches(e['pat'], v, env2):
+                env.update(env2)
+                return True
+            return False
         if k == 'if':
             c = self.val(e['cond'], env)
             if c:
